@@ -270,7 +270,7 @@ def gen_lexicon(rng, lmfver, lexid, lexver, profile=None, base=None, language=No
         if g.opt(0.2):
             ss['lexicalized'] = r.choice([True, False])
         if lmfver != '1.0' and p['lexfile'] and g.opt(0.4):
-            ss['lexfile'] = r.choice(['noun.animal', 'verb.motion', g.attr_string()])
+            ss['lexfile'] = r.choice(['noun.animal', 'noun.Animal', 'NOUN.ANIMAL', 'verb.motion', g.attr_string()])
         if ili == 'in' and g.opt(0.8):
             ss['ili_definition'] = {'text': g.text_string() or 'ilidef', 'meta': g.meta()}
         elif ili and ili != 'in' and g.opt(0.1):
